@@ -589,4 +589,79 @@ theorem funding_oi_is_sum_of_positions {U : Nat} {s : PSys} (h : MarketInv U s) 
 example : packFunding 64 (10 ^ 9) 10000 10368000 (20 * 10 ^ 9) 1 true = some 5184000000 := by rfl
 example : packFunding 64 (10 ^ 9) 10000 10368000 (10 * 10 ^ 9) 1 false = some 10368000000 := by rfl
 
+/-! #### audit additions: witnesses for the remaining hypotheses
+
+(`ledger_step_increase`, `ledger_step_decrease` and the funding half of `fee_updates_keep_ledger` are
+witnessed by `fee_dust_witness` / `claim_before_collect_witness`: `dustOutcome` / `fOutcome` are `some _`
+only if every `increase`, `decrease`, `marketUpdateFunding` in them returned `.ok`.) -/
+/-- `pay_conserves`: a cost of 18 paid from output 5, then collateral 10 (3 missing are then taken from the
+secondary output, converted at the prices): `(out, rem, sec after; paid collateral, paid secondary, left)`;
+and a cost that cannot be paid in full (1400 left over). -/
+example : (match doPayForCost 64 ⟨wPrices, false, true, false⟩ { m := wMarket, out := 5, sec := 300, rem := 10 } 18 with
+  | some (s1, pc, ps, left) => [s1.out, s1.rem, s1.sec, pc, ps, left] | none => []) = [0, 0, 300, 15, 0, 0] := by decide +kernel
+example : (match doPayForCost 64 ⟨wPrices, false, true, false⟩ { m := wMarket, out := 5, sec := 3, rem := 10 } 1800 with
+  | some (s1, pc, ps, left) => [s1.out, s1.rem, s1.sec, pc, ps, left] | none => []) = [0, 0, 0, 15, 3, 1400] := by decide +kernel
+/-- `funding_backed_single_update_partial` instantiated on the two `packFunding` examples below (same
+funding value 10 368 000, price 1; payers' OI 20 USD, receivers' OI 10 USD): claimable ≤ payable, here equal. -/
+example : 10368000000 * 1 * (10 * 10 ^ 9) ≤ 5184000000 * 1 * (20 * 10 ^ 9) :=
+  funding_backed_single_update_partial (W := 64) (U := 10 ^ 9) (adj := 10000) (fv := 10368000) (by rfl) (by rfl) (by decide) (by decide)
+/-- `pending_rounding`: an index difference that does not divide: the payer owes 10 368 001 (rounded up),
+the receiver may claim 10 368 000 (rounded down). -/
+example : unpackFunding 64 (10 ^ 9) 10000 5184000007 0 (20 * 10 ^ 9) true = some 10368001 ∧
+    unpackFunding 64 (10 ^ 9) 10000 5184000007 0 (20 * 10 ^ 9) false = some 10368000 := by decide +kernel
+/-- `funding_backed` / `funding_backed_step` on a concrete non-empty `FundSys` history (the F-C08 shape):
+a long and a short opened, an update with the long side paying, the SHORT settles first: claimed
+10 368 000 > collected 0, covered by the pending payable funding; a second update with a remainder
+(pending claimable, integer, 259), and a settle of a non-existing position (no-op). -/
+example : (fun s : FundSys => [s.claimed, s.collected, pendPay s.F s.pos, pendClaimInt 64 (10 ^ 9) 10000 s.C s.pos, s.F true, s.C false])
+    (FundSys.init.run 64 (10 ^ 9) 10000 [.openPos true true, .openPos false true, .settle 0 (20 * 10 ^ 9), .settle 1 (10 * 10 ^ 9),
+      .update true 10368000 1, .settle 1 (10 * 10 ^ 9), .update true 777 3, .settle 7 1])
+    = [10368000, 0, 103682590000000000000, 259, 5184129500, 10368259000] := by decide +kernel
+/-- the invariant of `funding_backed_step` on that non-initial reachable state. -/
+example : (FundSys.init.run 64 (10 ^ 9) 10000 [.openPos true true, .openPos false true, .settle 0 (20 * 10 ^ 9),
+      .settle 1 (10 * 10 ^ 9), .update true 10368000 1, .settle 1 (10 * 10 ^ 9)]).Inv (10 ^ 9) 10000 :=
+  fund_inv_run _ _ _ _ _ (fund_inv_init _ _)
+/-- `ledger_history` on a concrete position history (open, increase with 3·10⁹ short tokens, partial
+decrease withdrawing 10⁹, full close at a profit paid in LONG tokens — a mixed-token decrease):
+`[ledger before, after, tokens in, tokens out]` for the short token and for the long token;
+`10¹⁴ + 3·10⁹ = 100 000 400 000 000 + 2.6·10⁹` and `10¹² = 999 990 909 091 + 9 090 909`. -/
+example : (fun x : PSys × Flow => ([ledger x.1.m false, x.2.inn false, x.2.out false, ledger x.1.m true, x.2.inn true, x.2.out true,
+      x.2.fund false], x.2.short, x.2.mixed))
+    ((PSys.mk { cfg := wCfg, primary := ⟨10 ^ 12, 10 ^ 14⟩ } []).runF 64 (10 ^ 9) wPerp
+      [.openPos true false, .inc 0 (3 * 10 ^ 9) (20 * 10 ^ 9) wPrices, .dec 0 (10 * 10 ^ 9) (10 ^ 9) {} wPrices,
+       .dec 0 (10 * 10 ^ 9) 0 {} ⟨⟨110, 110⟩, ⟨110, 110⟩, ⟨1, 1⟩⟩])
+    = ([100000400000000, 3000000000, 2600000000, 999990909091, 0, 9090909, 0], false, true) := by decide +kernel
+/-- `run_preserves_MarketInv`, `run_preserves_ledger`, `whole_ledger`, `whole_ledger_nonflow_ops`,
+`run_indices_monotone`, `funding_oi_is_sum_of_positions` on a concrete MIXED history from the empty market:
+deposit, two positions (long / short), funding and borrowing updates a day apart (the funding index of the
+longs and the claimable index of the shorts move), partial decrease, swap, withdrawal, distribution, an empty
+increase that collects the short's claimable funding. Positions `(size, tokens, collateral)`, supply, the two
+indices, `[ledger long, ledger short, in long, in short, out long, out short, funding collected (short token)]`:
+`1 000 000 095 000 + 5 000 = 0 + 1 000 000 100 000` and
+`100 005 979 131 999 + 10 500 001 + 10 368 000 = 0 + 100 006 000 000 000`. -/
+example : (fun x : PSys × Flow => (x.1.ps.map (fun p => (p.sizeUsd, p.sizeTokens, p.collateral)), x.1.m.supply, x.1.m.fapsL.short,
+      x.1.m.cfapsS.short, [ledger x.1.m true, ledger x.1.m false, x.2.inn true, x.2.inn false, x.2.out true, x.2.out false, x.2.fund false]))
+    ((PSys.mk { cfg := wCfg } []).wrunF 64 (10 ^ 9) wPerp ⟨⟨10 ^ 9, 20, 0, 0, 10, 0, 0, 0⟩, ⟨true, 10 ^ 9, true⟩, ⟨10 ^ 9, 10, 0, 0, 0, 10 ^ 18⟩, ⟨10 ^ 9, 10, 0, 0, 0, 10 ^ 18⟩⟩
+      [.deposit (10 ^ 12) (10 ^ 14) wPrices, .openPos true false, .inc 0 (3 * 10 ^ 9) (20 * 10 ^ 9) wPrices,
+       .openPos false false, .inc 1 (3 * 10 ^ 9) (10 * 10 ^ 9) wPrices, .updFunding wPrices, .updBorrowing wPrices,
+       .tick 86400, .updFunding wPrices, .updBorrowing wPrices, .dec 0 (10 * 10 ^ 9) 0 {} wPrices, .swap true 100000 wPrices,
+       .withdraw 1000000 wPrices, .distribute, .inc 1 0 0 wPrices])
+    = ([(10000000000, 100000000, 2689632000), (10000000000, 100000000, 2900000000)], 199999999000000, 5184000000, 10368000000,
+       [1000000095000, 100005979131999, 1000000100000, 100006000000000, 5000, 10500001, 10368000]) := by decide +kernel
+/-- `MarketInv` on that reachable state, by the theorems themselves (premise `MarketInv_init`). -/
+example : MarketInv (10 ^ 9) ((PSys.mk { cfg := wCfg } []).wrun 64 (10 ^ 9) wPerp ⟨⟨10 ^ 9, 20, 0, 0, 10, 0, 0, 0⟩, ⟨true, 10 ^ 9, true⟩, ⟨10 ^ 9, 10, 0, 0, 0, 10 ^ 18⟩, ⟨10 ^ 9, 10, 0, 0, 0, 10 ^ 18⟩⟩
+      [.deposit (10 ^ 12) (10 ^ 14) wPrices, .openPos true false, .inc 0 (3 * 10 ^ 9) (20 * 10 ^ 9) wPrices,
+       .openPos false false, .inc 1 (3 * 10 ^ 9) (10 * 10 ^ 9) wPrices, .updFunding wPrices, .updBorrowing wPrices,
+       .tick 86400, .updFunding wPrices, .updBorrowing wPrices, .dec 0 (10 * 10 ^ 9) 0 {} wPrices, .swap true 100000 wPrices,
+       .withdraw 1000000 wPrices, .distribute, .inc 1 0 0 wPrices]) :=
+  run_preserves_MarketInv _ _ _ _ _ _ (MarketInv_init _ _)
+/-- `funding_update_is_fundsys_update`: a funding update that moves indices (longs 20 USD pay, shorts 10 USD
+receive, one day): second disjunct, `dF` of (long, short token) and `dC` of (short, short token) non-zero. -/
+example : nextFundingAmounts 64 (10 ^ 9) 10000 ⟨10 ^ 9, 20, 0, 0, 10, 0, 0, 0⟩
+      ⟨⟨0, 20 * 10 ^ 9, 0, 10 * 10 ^ 9⟩, ⟨0, 0, 0, 0⟩, ⟨0, 0, 0, 0⟩, 0⟩ 86400 100 1
+    = .ok ⟨0, ⟨0, 5184000000, 0, 0⟩, ⟨0, 0, 0, 10368000000⟩⟩ := by decide +kernel
+/-- `position_fees_are_fundsys_settle`: `positionFees` succeeds with a non-zero pending funding fee. -/
+example : (match positionFees 64 (10 ^ 9) { wMarket with fapsL := ⟨0, 5184000000⟩ } wPerp wPos ⟨1, 1⟩ (10 * 10 ^ 9) .worsened false with
+  | .ok f => some (f.fundAmount, f.claimL, f.claimS) | _ => none) = some (10368000, 0, 0) := by decide +kernel
+
 end Gmx.C08
